@@ -2,6 +2,7 @@
   C01 — a call to a faked function reaches the fake from every address placement.
   Property theorems only (helper lemmas live in InjModel/Lemmas).
 -/
+import InjModel.Generated.Layout
 import InjModel.Lemmas.X86
 import InjModel.Lemmas.Machine
 namespace Inj.Props
@@ -74,9 +75,14 @@ example : genBranch Mode.debug 0x1000 0x2000 = Res.ok [0xE9, 0xFB, 0x0F, 0, 0] :
 example : genBranch Mode.debug 0x1000 0x80001005 = Res.ok [0x48, 0xB8, 5, 0x10, 0, 0x80, 0, 0, 0, 0, 0xFF, 0xE0] := by decide
 example : genBranch Mode.debug 0x1000 0x80001004 = Res.ok [0xE9, 0xFF, 0xFF, 0xFF, 0x7F] := by decide
 
+/-- the model's state is complete for the back ends: `injector_core` declares no process-wide or
+    thread-local mutable state (regenerated from the source on every run) -/
+theorem C01_state_modelled : Generated.Layout.coreStatics = [] := by decide
+
 end Inj.Props
 
 #print axioms Inj.Props.C01_branch_lands
 #print axioms Inj.Props.C01_release_total
 #print axioms Inj.Props.C01_reach
 #print axioms Inj.Props.C01_install_total_release
+#print axioms Inj.Props.C01_state_modelled
